@@ -38,15 +38,13 @@ def _get_percentile_intermediate_result_over_trials(
     if len(intermediate_values) < n_min_trials:
         return math.nan
 
+    values = np.array(intermediate_values, dtype=float)
     if direction == StudyDirection.MAXIMIZE:
-        percentile = 100 - percentile
-
-    return float(
-        np.nanpercentile(
-            np.array(intermediate_values, dtype=float),
-            percentile,
-        )
-    )
+        # Mirror of the minimization case. ``np.nanpercentile(values, 100 - percentile)`` is not
+        # its mirror image when a neighbor of the percentile is infinite (the linear
+        # interpolation of numpy gives ``nan`` on one side and ``inf`` on the other).
+        return float(-np.nanpercentile(-values, percentile))
+    return float(np.nanpercentile(values, percentile))
 
 
 def _is_first_in_interval_step(
